@@ -1145,6 +1145,31 @@ void mon_wire_wellformed(const Run& run, const Ix&, Verdicts& v, vu::Result& res
     }
 }
 
+// ------------------------------------------------------------------------------------------------ C18 (in situ)
+// On a connection on which the broker model sent nothing but well-formed, conformant packets within the client's receive limit, the
+// client has no reason to call anything malformed: a DISCONNECT 0x81 / 0x82 carrying one of the library's "Malformed ..." reason
+// strings means a well-formed packet did not decode (or decoded to something the library then refused).
+void mon_conformant_rejections(const Run& run, const Ix&, Verdicts& v, vu::Result& res) {
+    const History& h = run.w->h;
+    for (auto& c : h.conns) {
+        bool hostile = false; uint32_t limit = 0; size_t delivered = 0;
+        for (auto& q : h.cpkts) if (q.conn == c.id && q.dec.status == ref::Status::ok && q.dec.pkt.type == ref::CONNECT) for (auto& x : q.dec.pkt.props) if (x.id == 0x27) limit = (uint32_t)x.num;
+        for (auto& b : h.bpkts) if (b.conn == c.id) { if (b.kind != BKind::normal && b.kind != BKind::retransmit) hostile = true; if (!b.wellformed || b.raw.size() > (limit ? limit : 65536u)) hostile = true; if (b.delivered_t >= 0) ++delivered; }
+        if (hostile || !delivered) continue;
+        res.count("conformant_connections");
+        res.count("conformant_packets_delivered", delivered);
+        for (auto& k : h.cpkts) {
+            if (k.conn != c.id || k.dec.status != ref::Status::ok || !library_own_disconnect(k.dec.pkt) || k.dec.pkt.rc == 0x80) continue;
+            std::string rs; for (auto& x : k.dec.pkt.props) if (x.id == 0x1F) rs = x.s1;
+            if (rs.rfind("Re-authentication", 0) == 0) continue;    // the application's authenticator said no
+            const BPacket* last = nullptr;
+            for (auto& b : h.bpkts) if (b.conn == c.id && b.delivered_t >= 0 && b.delivered_seq < k.seq && (!last || b.delivered_seq > last->delivered_seq)) last = &b;
+            v.add("C18", std::string("C18:in-situ:conformant-packet-rejected:") + (last ? ref::type_name(last->pkt.type) : "?"), "connection " + std::to_string(c.id) + ": the client sent DISCONNECT 0x" + vu::hex(std::string(1, char(k.dec.pkt.rc))) +
+                  " \"" + rs + "\" although the broker had sent only well-formed, conformant packets; last packet delivered before it: " + (last ? last->pkt.str().substr(0, 160) : std::string("none")));
+        }
+    }
+}
+
 void monitor_ids_only(const Run& run, Verdicts& v, vu::Result& res) {
     Ix ix(run.w->h);
     mon_quota_and_ids(run, ix, v, res);
@@ -1166,6 +1191,7 @@ void monitor_all(const Run& run, Verdicts& v, vu::Result& res) {
     mon_keepalive(run, ix, v, res);
     mon_capabilities(run, ix, v, res);
     mon_wire_wellformed(run, ix, v, res);
+    mon_conformant_rejections(run, ix, v, res);
 }
 
 }  // namespace sim
